@@ -4,31 +4,50 @@
 #[path = "../names.rs"]
 mod names;
 
+use bytes::{BufMut, Bytes, BytesMut};
 use domain::base::name::{
-    FlattenInto, Name, NameBuilder, ParsedName, RelativeName, ToLabelIter, ToName, ToRelativeName, UncertainName,
+    FlattenInto, Label, Name, NameBuilder, OwnedLabel, ParsedName, RelativeName, ToLabelIter, ToName,
+    ToRelativeName, UncertainName,
 };
+use domain::base::scan::{IterScanner, Symbol, Symbols};
 use domain::rdata::ZoneRecordData;
-use domain::base::scan::IterScanner;
 use domain::zonefile::inplace::{Entry, Zonefile};
 use names::*;
-use octseq::Parser;
+use octseq::builder::{FreezeBuilder, OctetsBuilder};
+use octseq::{OctetsFrom, Parser};
 use serde_json::{json, Value};
+use std::net::{IpAddr, Ipv4Addr, Ipv6Addr};
 use std::ops::{Bound, RangeBounds};
 use std::str::FromStr;
 use verif_harness::common::*;
 
 /// One transition: bring a real builder into the source state, make the
-/// call, report what the spec's `Obs` describes.
+/// call, report what the spec's `Obs` describes.  Done on a builder over
+/// `Vec<u8>` and on one over `BytesMut`, each made by one of its constructors.
 fn transition(input: &Value) -> Value {
+    let a = transition_on::<Vec<u8>>(input);
+    let b = transition_on::<BytesMut>(input);
+    if a == b {
+        a
+    } else {
+        json!({"octets_types_disagree": {"vec": a, "bytes": b}})
+    }
+}
+
+fn transition_on<T>(input: &Value) -> Value
+where
+    T: OctetsBuilder + AsRef<[u8]> + AsMut<[u8]> + FreezeBuilder + Clone + Ctor,
+    T::Octets: AsRef<[u8]>,
+{
     let mut fill = Fill(input["s"][0].as_u64().unwrap_or(0) as usize);
     let mut b = match input.get("p") {
-        None => match construct(&input["s"], input["f"].as_bool().unwrap_or(false), &mut fill) {
+        None => match construct::<T>(&input["s"], input["f"].as_bool().unwrap_or(false), &mut fill) {
             Some(b) => b,
             None => return json!({"cannot_construct_source": input["s"]}),
         },
         Some(path) => {
             // a state that only deviations lead to: follow the model's path
-            let mut b = B::new_vec();
+            let mut b = T::ctor(fill.0);
             for step in path.as_array().map(|a| a.as_slice()).unwrap_or(&[]) {
                 let op = step[0].as_str().unwrap_or("");
                 let _ = apply(&mut b, op, &step[1], &mut fill);
@@ -59,7 +78,7 @@ type N = Name<Vec<u8>>;
 type Rn = RelativeName<Vec<u8>>;
 type U = UncertainName<Vec<u8>>;
 
-fn tag_name(r: Result<N, impl Sized>) -> Value {
+fn tag_name<O: AsRef<[u8]>>(r: Result<Name<O>, impl Sized>) -> Value {
     match r {
         Ok(n) if valid_abs(n.as_slice()) => json!(["abs", json_bytes(n.as_slice())]),
         Ok(n) => json!(["invalid_abs", json_bytes(n.as_slice())]),
@@ -67,7 +86,7 @@ fn tag_name(r: Result<N, impl Sized>) -> Value {
     }
 }
 
-fn tag_rel(r: Result<Rn, impl Sized>) -> Value {
+fn tag_rel<O: AsRef<[u8]>>(r: Result<RelativeName<O>, impl Sized>) -> Value {
     match r {
         Ok(n) if valid_rel(n.as_slice()) => json!(["rel", json_bytes(n.as_slice())]),
         Ok(n) => json!(["invalid_rel", json_bytes(n.as_slice())]),
@@ -75,11 +94,188 @@ fn tag_rel(r: Result<Rn, impl Sized>) -> Value {
     }
 }
 
-fn tag_unc(r: Result<U, impl Sized>) -> Value {
+fn tag_unc<O: AsRef<[u8]> + Clone>(r: Result<UncertainName<O>, impl Sized>) -> Value {
+    let u = match r {
+        Ok(u) => u,
+        Err(_) => return json!(["err"]),
+    };
+    // the accessors of an uncertain name describe the same value
+    let abs = u.is_absolute();
+    if u.is_relative() == abs
+        || u.as_absolute().is_some() != abs
+        || u.as_relative().is_some() == abs
+        || u.clone().try_into_absolute().is_ok() != abs
+        || u.clone().try_into_relative().is_ok() == abs
+        || u.as_slice() != u.as_octets().as_ref()
+        || AsRef::<[u8]>::as_ref(&u) != u.as_slice()
+        || AsRef::<O>::as_ref(&u).as_ref() != u.as_slice()
+        || usize::from(u.compose_len()) != u.as_slice().len()
+    {
+        return json!(["uncertain_accessors_disagree", json_bytes(u.as_slice())]);
+    }
+    let mut walked = vec![];
+    for l in &u {
+        walked.push(l.len() as u8);
+        walked.extend_from_slice(l.as_slice());
+    }
+    if walked != u.as_slice() {
+        return json!(["uncertain_labels_differ", json_bytes(&walked)]);
+    }
+    match u {
+        UncertainName::Absolute(n) => tag_name(Ok::<Name<O>, ()>(n)),
+        UncertainName::Relative(n) => tag_rel(Ok::<RelativeName<O>, ()>(n)),
+    }
+}
+
+/// Every route to the same operator of the specification must give the same
+/// value: that value, or which route is off.
+fn one(routes: Vec<(&str, Value)>) -> Value {
+    let first = routes[0].1.clone();
+    for (n, v) in &routes {
+        if *v != first {
+            return json!(["routes_disagree", routes[0].0, first, n, v]);
+        }
+    }
+    first
+}
+
+fn has_backslash(t: &str) -> bool {
+    t.contains('\\')
+}
+
+/// every way of reading a text as an absolute name
+fn name_routes(t: &str) -> Value {
+    let mut r = vec![
+        ("from_str", tag_name(N::from_str(t))),
+        ("from_chars", tag_name(N::from_chars(t.chars()))),
+        ("vec_from_str", tag_name(Name::vec_from_str(t))),
+        ("bytes_from_str", tag_name(Name::bytes_from_str(t))),
+        ("from_str<Bytes>", tag_name(Name::<Bytes>::from_str(t))),
+        ("from_symbols", tag_name(Symbols::with(t.chars(), |s| N::from_symbols(s)))),
+        ("serde_json", tag_name(serde_json::from_value::<N>(Value::String(t.to_string())))),
+        ("serde_json<Bytes>", tag_name(serde_json::from_value::<Name<Bytes>>(Value::String(t.to_string())))),
+    ];
+    if !has_backslash(t) {
+        // without escapes a character is a symbol
+        r.push(("from_symbols(From<char>)", tag_name(N::from_symbols(t.chars().map(Symbol::from)))));
+    }
+    one(r)
+}
+
+/// every way of reading a text as a name that may be relative
+fn unc_routes(t: &str) -> Value {
+    let mut r = vec![
+        ("from_str", tag_unc(U::from_str(t))),
+        ("from_chars", tag_unc(U::from_chars(t.chars()))),
+        ("from_str<Bytes>", tag_unc(UncertainName::<Bytes>::from_str(t))),
+        ("serde_json", tag_unc(serde_json::from_value::<U>(Value::String(t.to_string())))),
+    ];
+    // the builder itself: a label left open means a relative name
+    if t != "." {
+        let mut b = NameBuilder::new_vec();
+        let v = match b.append_chars(t.chars()) {
+            Err(_) => json!(["err"]),
+            Ok(()) if b.in_label() || b.is_empty() => tag_rel(Ok::<Rn, ()>(b.finish())),
+            Ok(()) => tag_name(b.into_name()),
+        };
+        r.push(("append_chars", v));
+        let mut b = NameBuilder::new_bytes();
+        let v = match Symbols::with(t.chars(), |s| b.append_symbols(s)) {
+            Err(_) => json!(["err"]),
+            Ok(()) if b.in_label() || b.is_empty() => tag_rel(Ok::<RelativeName<Bytes>, ()>(b.finish())),
+            Ok(()) => tag_name(b.into_name()),
+        };
+        r.push(("append_symbols<BytesMut>", v));
+    }
+    one(r)
+}
+
+/// every way of reading a text as a relative name
+fn rel_routes(t: &str) -> Value {
+    one(vec![
+        ("from_str", tag_rel(Rn::from_str(t))),
+        ("from_chars", tag_rel(Rn::from_chars(t.chars()))),
+        ("vec_from_str", tag_rel(RelativeName::vec_from_str(t))),
+        ("bytes_from_str", tag_rel(RelativeName::bytes_from_str(t))),
+    ])
+}
+
+fn tag_label(r: Result<OwnedLabel, impl Sized>) -> Value {
     match r {
-        Ok(UncertainName::Absolute(n)) => tag_name(Ok::<N, ()>(n)),
-        Ok(UncertainName::Relative(n)) => tag_rel(Ok::<Rn, ()>(n)),
+        Ok(l) if l.as_slice().len() <= 63 && l.as_wire_slice()[0] as usize == l.len() => json!(["lab", json_bytes(l.as_slice())]),
+        Ok(l) => json!(["invalid_label", json_bytes(l.as_wire_slice())]),
         Err(_) => json!(["err"]),
+    }
+}
+
+/// every way of reading a text as a single label
+fn label_routes(t: &str) -> Value {
+    one(vec![
+        ("from_str", tag_label(OwnedLabel::from_str(t))),
+        ("from_chars", tag_label(OwnedLabel::from_chars(t.chars()))),
+        ("serde_json", tag_label(serde_json::from_value::<OwnedLabel>(Value::String(t.to_string())))),
+    ])
+}
+
+/// every way of setting up the zone-file reader over the same text
+fn zonefiles(text: &str) -> Vec<(&'static str, Zonefile)> {
+    let mut v = vec![
+        ("from_str", Zonefile::from(text)),
+        ("from_slice", Zonefile::from(text.as_bytes())),
+        ("allow_invalid", Zonefile::from(text).allow_invalid()),
+    ];
+    if let Ok(z) = Zonefile::load(&mut text.as_bytes()) {
+        v.push(("load", z));
+    }
+    let mut z = Zonefile::new();
+    z.extend_from_slice(text.as_bytes());
+    v.push(("new+extend", z));
+    let mut z = Zonefile::default();
+    z.put_slice(text.as_bytes());
+    v.push(("default+BufMut", z));
+    let mut z = Zonefile::with_capacity(3);
+    z.reserve(text.len());
+    for chunk in text.as_bytes().chunks(7) {
+        z.put_slice(chunk);
+    }
+    v.push(("with_capacity+reserve+chunks", z));
+    v
+}
+
+/// the first record's name at `place`, read by every reader set-up
+fn zone_read(text: &str, place: &str) -> Value {
+    let mut r = vec![];
+    for (how, mut zf) in zonefiles(text) {
+        let v = loop {
+            match zf.next_entry() {
+                Ok(Some(Entry::Record(rec))) => {
+                    let n: N = match place {
+                        "owner" => rec.owner().to_name(),
+                        "ns" => match rec.data() {
+                            ZoneRecordData::Ns(ns) => ns.nsdname().to_name(),
+                            _ => break json!(["wrong_record_type", [], 0]),
+                        },
+                        _ => match rec.data() {
+                            ZoneRecordData::Mx(mx) => mx.exchange().to_name(),
+                            _ => break json!(["wrong_record_type", [], 0]),
+                        },
+                    };
+                    break json!(["abs", json_bytes(n.as_slice()), valid_abs(n.as_slice()) as u8]);
+                }
+                Ok(Some(_)) => continue,
+                Ok(None) | Err(_) => break json!(["err", [], 1]),
+            }
+        };
+        r.push((how, v));
+    }
+    one(r)
+}
+
+fn zone_text(name: &str, place: &str) -> String {
+    match place {
+        "owner" => format!("$ORIGIN example.\n{} 3600 IN A 192.0.2.1\n", name),
+        "ns" => format!("$ORIGIN example.\nx 3600 IN NS {}\n", name),
+        _ => format!("$ORIGIN example.\nx 3600 IN MX 10 {}\n", name),
     }
 }
 
@@ -115,7 +311,7 @@ fn abs_boundary(name: &N, i: usize) -> Value {
     }
     let lo: Rn = RelativeName::from_octets(left.clone()).unwrap();
     let ro: N = Name::from_octets(right.clone()).unwrap();
-    match lo.chain(ro) {
+    match lo.clone().chain(ro.clone()) {
         Ok(ch) => {
             let flat: N = ch.to_name();
             if flat.as_slice() != name.as_slice()
@@ -124,10 +320,106 @@ fn abs_boundary(name: &N, i: usize) -> Value {
             {
                 return json!([i, "chain_differs"]);
             }
+            if let Some(why) = abs_chain_views(&ch, name) {
+                return json!([i, "chain_differs", why]);
+            }
+            if !chain_dot_text_ok(&ch, name) {
+                return json!([i, "chain_differs", "fmt_with_dot"]);
+            }
+            let (l2, r2) = ch.unwrap();
+            if l2.as_slice() != left || r2.as_slice() != right {
+                return json!([i, "chain_unwrap_differs"]);
+            }
         }
         Err(_) => return json!([i, "chain_refused"]),
     }
+    macro_rules! same_name {
+        ($what:expr, $chain:expr) => {
+            match $chain {
+                Ok(ch) => {
+                    if let Some(why) = abs_chain_views(&ch, name) {
+                        return json!([i, $what, why]);
+                    }
+                    if !chain_dot_text_ok(&ch, name) {
+                        return json!([i, $what, "fmt_with_dot"]);
+                    }
+                }
+                Err(_) => return json!([i, $what, "refused"]),
+            }
+        };
+    }
+    // the same through an uncertain left half, relative and absolute
+    same_name!("uncertain_chain", U::from(lo.clone()).chain(ro.clone()));
+    same_name!("uncertain_absolute_chain", U::from(name.clone()).chain(ro.clone()));
+    // a chain chained on: (left, nothing, right) and (first label, rest of left, right)
+    same_name!("chain_of_chain", lo.clone().chain(RelativeName::empty_ref()).and_then(|c| c.chain(ro.clone())));
+    if let Some(f) = lo.first() {
+        let (a, b) = lo.split(f.len() + 1);
+        same_name!("three_part_chain", a.chain(b).and_then(|c| c.chain(ro.clone())));
+    }
+    // the trait's chain as well as the inherent one
+    same_name!("ToRelativeName::chain", ToRelativeName::chain(lo.clone(), ro.clone()));
+    if ro.len() == 1 {
+        same_name!("chain_root", Ok::<_, ()>(lo.clone().chain_root()));
+        same_name!("ToRelativeName::chain_root", Ok::<_, ()>(ToRelativeName::chain_root(lo.clone())));
+    }
     json!([i, json_bytes(&left), json_bytes(&right)])
+}
+
+/// everything a chain that stands for an absolute name offers must describe
+/// `name`: labels (forwards, backwards, from a cloned iterator), length,
+/// flat forms, both texts read back
+fn abs_chain_views<C: ToName + std::fmt::Display>(ch: &C, name: &N) -> Option<&'static str> {
+    let mut fwd = vec![];
+    for l in ch.iter_labels() {
+        fwd.push(l.len() as u8);
+        fwd.extend_from_slice(l.as_slice());
+    }
+    if fwd != name.as_slice() {
+        return Some("iter_labels");
+    }
+    let it = ch.iter_labels();
+    let it2 = it.clone();
+    if it.count() != name.label_count() || it2.map(|l| l.len() + 1).sum::<usize>() != name.len() {
+        return Some("cloned iterator");
+    }
+    let mut back: Vec<Vec<u8>> = ch.iter_labels().rev().map(|l| l.as_slice().to_vec()).collect();
+    back.reverse();
+    let mut b2 = vec![];
+    for l in back {
+        b2.push(l.len() as u8);
+        b2.extend_from_slice(&l);
+    }
+    if b2 != name.as_slice() {
+        return Some("iter_labels().rev()");
+    }
+    if usize::from(ch.compose_len()) != name.len() {
+        return Some("compose_len");
+    }
+    let flat: N = ch.to_name();
+    if flat.as_slice() != name.as_slice() {
+        return Some("to_name");
+    }
+    let mut composed: Vec<u8> = vec![];
+    if ch.compose(&mut composed).is_err() || composed != name.as_slice() {
+        return Some("compose");
+    }
+    if !ch.name_eq(name) || ch.to_string() != name.to_string() {
+        return Some("eq / Display");
+    }
+    if !N::from_str(&ch.to_string()).map(|n| n.as_slice() == name.as_slice()).unwrap_or(false) {
+        return Some("text read back");
+    }
+    None
+}
+
+/// the text with a final dot that a chain's fmt_with_dot writes, read back
+fn chain_dot_text_ok<L, R>(ch: &domain::base::name::Chain<L, R>, name: &N) -> bool
+where
+    domain::base::name::Chain<L, R>: ToLabelIter,
+{
+    let t = ch.fmt_with_dot().to_string();
+    t == name.fmt_with_dot().to_string() && N::from_str(&t).map(|n| n.as_slice() == name.as_slice()).unwrap_or(false)
 }
 
 fn rel_boundary(rel: &Rn, i: usize) -> Value {
@@ -225,18 +517,52 @@ fn name_case(input: &Value) -> Value {
             Err(_) => json!("err"),
         }
     };
+    let unwrap_abs = |v: Value| -> Value {
+        if v[0] == "abs" { v[1].clone() } else if v[0] == "err" { json!("err") } else { v }
+    };
+    let dotted = name.fmt_with_dot().to_string();
     json!({
         "valid": true,
-        "disp": octets_or_err(N::from_str(&disp)),
+        "disp": unwrap_abs(one(vec![
+            ("Display", name_routes(&disp)),
+            ("serde_json", name_routes(&serde_json::to_value(&name).ok().and_then(|v| v.as_str().map(String::from)).unwrap_or_else(|| "\\999".into()))),
+            ("Display of ParsedName::from", name_routes(&ParsedName::from(name.clone()).to_string())),
+            ("serde_json of ParsedName", name_routes(&serde_json::to_value(&ParsedName::from(name.clone())).ok().and_then(|v| v.as_str().map(String::from)).unwrap_or_else(|| "\\999".into()))),
+        ])),
         "chars": octets_or_err(N::from_chars(disp.chars())),
-        "dot": octets_or_err(N::from_str(&name.fmt_with_dot().to_string())),
+        "dot": unwrap_abs(name_routes(&dotted)),
         "parse": parsed,
-        "pres": tag_name(N::from_str(&text)),
-        "unc": tag_unc(U::from_str(&text)),
-        "uncrel": tag_unc(U::from_str(&reltext)),
-        "reld": tag_rel(Rn::from_str(&rel.to_string())),
-        "uncdisp": tag_unc(U::from_str(&U::from(name.clone()).to_string())),
-        "uncreldisp": tag_unc(U::from_str(&U::from(rel.clone()).to_string())),
+        "pres": name_routes(&text),
+        "unc": unc_routes(&text),
+        "uncrel": unc_routes(&reltext),
+        "reld": one(vec![
+            ("Display", rel_routes(&rel.to_string())),
+            ("serde_json", rel_routes(&serde_json::to_value(&rel).ok().and_then(|v| v.as_str().map(String::from)).unwrap_or_else(|| "\\999".into()))),
+            ("serde_json value", tag_rel(serde_json::to_value(&rel).map_err(|_| ()).and_then(|v| serde_json::from_value::<Rn>(v).map_err(|_| ())))),
+        ]),
+        "uncdisp": one(vec![
+            ("Display", unc_routes(&U::from(name.clone()).to_string())),
+            ("serde_json", tag_unc(serde_json::to_value(&U::from(name.clone())).map_err(|_| ()).and_then(|v| serde_json::from_value::<U>(v).map_err(|_| ())))),
+        ]),
+        "uncreldisp": one(vec![
+            ("Display", unc_routes(&U::from(rel.clone()).to_string())),
+            ("serde_json", tag_unc(serde_json::to_value(&U::from(rel.clone())).map_err(|_| ()).and_then(|v| serde_json::from_value::<U>(v).map_err(|_| ())))),
+        ]),
+        "canon": canon_views(&name),
+        "relcanon": rel_canon_views(&rel),
+        "labs": label_views(&name),
+        "wild": name.iter().filter(|l| !l.is_root()).map(|l| {
+            let w = l.is_wildcard();
+            if w != (l.as_slice() == Label::wildcard().as_slice()) { json!("wildcard_tests_disagree") } else { json!(w) }
+        }).collect::<Vec<_>>(),
+        "ndots": rel.ndots(),
+        "views": abs_views(&name),
+        "rviews": rel_views(&rel),
+        "zf": one(vec![
+            ("owner", zone_read(&zone_text(&dotted, "owner"), "owner")),
+            ("ns", zone_read(&zone_text(&dotted, "ns"), "ns")),
+            ("mx", zone_read(&zone_text(&dotted, "mx"), "mx")),
+        ]),
         "splits": splits,
         "nonb": nonb,
         "parent": match name.parent() {
@@ -252,23 +578,273 @@ fn name_case(input: &Value) -> Value {
     })
 }
 
+// --- the views of one value ---------------------------------------------
+
+fn walk<'a>(it: impl Iterator<Item = &'a Label>) -> Vec<u8> {
+    let mut o = vec![];
+    for l in it {
+        o.push(l.len() as u8);
+        o.extend_from_slice(l.as_slice());
+    }
+    o
+}
+
+/// every view of / conversion between representations of an absolute name
+fn abs_views(name: &N) -> Value {
+    let w = name.as_slice().to_vec();
+    let by: Name<Bytes> = Name::octets_from(name.clone());
+    let back: N = Name::octets_from(by.clone());
+    let pn: ParsedName<Vec<u8>> = ParsedName::from(name.clone());
+    let pn_flat: N = pn.clone().flatten_into();
+    let mut v: Vec<(&str, Vec<u8>)> = vec![
+        ("as_slice", w.clone()),
+        ("AsRef<[u8]>", AsRef::<[u8]>::as_ref(name).to_vec()),
+        ("AsRef<Octs>", AsRef::<Vec<u8>>::as_ref(name).clone()),
+        ("AsRef<Name<[u8]>>", AsRef::<Name<[u8]>>::as_ref(name).as_slice().to_vec()),
+        ("Borrow<Name<[u8]>>", std::borrow::Borrow::<Name<[u8]>>::borrow(name).as_slice().to_vec()),
+        ("as_octets", name.as_octets().clone()),
+        ("into_octets", name.clone().into_octets()),
+        ("for_ref", name.for_ref().as_slice().to_vec()),
+        ("for_slice", name.for_slice().as_slice().to_vec()),
+        ("iter", walk(name.iter())),
+        ("IntoIterator", walk(name.into_iter())),
+        ("IntoIterator for_ref", walk((&name.for_ref()).into_iter())),
+        ("iter_labels", walk(name.iter_labels())),
+        ("OctetsFrom to Bytes", by.as_slice().to_vec()),
+        ("OctetsFrom back", back.as_slice().to_vec()),
+        ("to_bytes", name.to_bytes().as_slice().to_vec()),
+        ("to_vec", name.to_vec().as_slice().to_vec()),
+        ("to_cow", name.to_cow().as_slice().to_vec()),
+        ("ParsedName::from iter", walk(pn.iter())),
+        ("ParsedName::from IntoIterator", walk((&pn).into_iter())),
+        ("ParsedName::from flatten_into", pn_flat.as_slice().to_vec()),
+        ("ParsedName::from to_name", pn.to_name::<Vec<u8>>().as_slice().to_vec()),
+        ("root-relative rebuild", name.clone().into_relative().into_absolute().map(|n| n.as_slice().to_vec()).unwrap_or_default()),
+    ];
+    if let Some(o) = compact::to_octets(name) {
+        v.push(("compact serde octets", o.clone()));
+        v.push(("compact serde Vec", compact::from_octets::<N>(&o).map(|n| n.as_slice().to_vec()).unwrap_or_default()));
+        v.push(("compact serde Bytes", compact::from_octets::<Name<Bytes>>(&o).map(|n| n.as_slice().to_vec()).unwrap_or_default()));
+        v.push(("compact serde uncertain", compact::from_octets::<U>(&o).ok().filter(|u| u.is_absolute()).map(|n| n.as_slice().to_vec()).unwrap_or_default()));
+    } else {
+        v.push(("compact serde", vec![]));
+    }
+    if usize::from(pn.compose_len()) != w.len() || pn != *name || !pn.name_eq(name) {
+        v.push(("ParsedName::from len / eq", vec![]));
+    }
+    for (how, o) in &v {
+        if *o != w {
+            return json!(["view_differs", how, json_bytes(o)]);
+        }
+    }
+    json_bytes(&w)
+}
+
+/// every view of / conversion between representations of a relative name
+fn rel_views(rel: &Rn) -> Value {
+    let w = rel.as_slice().to_vec();
+    let by: RelativeName<Bytes> = RelativeName::octets_from(rel.clone());
+    let back: Rn = RelativeName::octets_from(by.clone());
+    let mut v: Vec<(&str, Vec<u8>)> = vec![
+        ("as_slice", w.clone()),
+        ("AsRef<[u8]>", AsRef::<[u8]>::as_ref(rel).to_vec()),
+        ("AsRef<Octs>", AsRef::<Vec<u8>>::as_ref(rel).clone()),
+        ("AsRef<RelativeName<[u8]>>", AsRef::<RelativeName<[u8]>>::as_ref(rel).as_slice().to_vec()),
+        ("Borrow<RelativeName<[u8]>>", std::borrow::Borrow::<RelativeName<[u8]>>::borrow(rel).as_slice().to_vec()),
+        ("as_octets", rel.as_octets().clone()),
+        ("into_octets", rel.clone().into_octets()),
+        ("for_ref", rel.for_ref().as_slice().to_vec()),
+        ("for_slice", rel.for_slice().as_slice().to_vec()),
+        ("iter", walk(rel.iter())),
+        ("IntoIterator", walk(rel.into_iter())),
+        ("iter_labels", walk(rel.iter_labels())),
+        ("OctetsFrom to Bytes", by.as_slice().to_vec()),
+        ("OctetsFrom back", back.as_slice().to_vec()),
+        ("to_bytes", rel.to_bytes().as_slice().to_vec()),
+        ("to_vec", ToRelativeName::to_vec(rel).as_slice().to_vec()),
+        ("to_cow", rel.to_cow().as_slice().to_vec()),
+        ("into_builder.finish", rel.clone().into_builder().finish().as_slice().to_vec()),
+        ("from_builder.finish", NameBuilder::from_builder(w.clone()).map(|b| b.finish().as_slice().to_vec()).unwrap_or_default()),
+        ("from_builder<BytesMut>.finish", NameBuilder::from_builder(BytesMut::from(&w[..])).map(|b| b.finish().as_slice().to_vec()).unwrap_or_default()),
+        ("uncertain", U::from(rel.clone()).as_slice().to_vec()),
+    ];
+    if let Some(o) = compact::to_octets(rel) {
+        v.push(("compact serde octets", o.clone()));
+        v.push(("compact serde Vec", compact::from_octets::<Rn>(&o).map(|n| n.as_slice().to_vec()).unwrap_or_default()));
+        v.push(("compact serde Bytes", compact::from_octets::<RelativeName<Bytes>>(&o).map(|n| n.as_slice().to_vec()).unwrap_or_default()));
+        if !w.is_empty() {
+            v.push(("compact serde uncertain", compact::from_octets::<U>(&o).ok().filter(|u| u.is_relative()).map(|n| n.as_slice().to_vec()).unwrap_or_default()));
+        }
+    } else {
+        v.push(("compact serde", vec![0xEE]));
+    }
+    for (how, o) in &v {
+        if *o != w {
+            return json!(["view_differs", how, json_bytes(o)]);
+        }
+    }
+    json_bytes(&w)
+}
+
+/// every way to the canonical form of an absolute name
+fn canon_views(name: &N) -> Value {
+    let mut a = name.clone();
+    a.make_canonical();
+    let mut b: Name<BytesMut> = Name::from_octets(BytesMut::from(name.as_slice())).expect("valid name");
+    b.make_canonical();
+    let mut c: Vec<u8> = vec![];
+    let _ = name.compose_canonical(&mut c);
+    let mut d = vec![];
+    for l in name.iter() {
+        let mut o = OwnedLabel::from_label(l);
+        o.make_canonical();
+        d.extend_from_slice(o.as_wire_slice());
+    }
+    let mut e = vec![];
+    for l in name.iter() {
+        e.extend_from_slice(l.to_canonical().as_wire_slice());
+    }
+    let mut f = name.as_slice().to_vec();
+    {
+        let mut rest: &mut [u8] = &mut f;
+        while !rest.is_empty() {
+            match Label::split_from_mut(std::mem::take(&mut rest)) {
+                Ok((l, tail)) => {
+                    l.make_canonical();
+                    rest = tail;
+                }
+                Err(_) => return json!(["split_from_mut_refused_a_valid_name"]),
+            }
+        }
+    }
+    let mut g = vec![];
+    for l in name.iter() {
+        let _ = l.compose_canonical(&mut g);
+    }
+    one(vec![
+        ("make_canonical", json_bytes(a.as_slice())),
+        ("make_canonical<BytesMut>", json_bytes(b.as_slice())),
+        ("compose_canonical", json_bytes(&c)),
+        ("to_canonical_name", json_bytes(name.to_canonical_name::<Vec<u8>>().as_slice())),
+        ("OwnedLabel::make_canonical", json_bytes(&d)),
+        ("Label::to_canonical", json_bytes(&e)),
+        ("Label::make_canonical", json_bytes(&f)),
+        ("Label::compose_canonical", json_bytes(&g)),
+    ])
+}
+
+fn rel_canon_views(rel: &Rn) -> Value {
+    let mut a = rel.clone();
+    a.make_canonical();
+    let mut c: Vec<u8> = vec![];
+    let _ = rel.compose_canonical(&mut c);
+    one(vec![
+        ("make_canonical", json_bytes(a.as_slice())),
+        ("compose_canonical", json_bytes(&c)),
+        ("to_canonical_relative_name", json_bytes(rel.to_canonical_relative_name::<Vec<u8>>().as_slice())),
+    ])
+}
+
+/// every label of the name on its own: its text read back as a label, the
+/// label rebuilt from its octets, owned copies
+fn label_views(name: &N) -> Value {
+    let mut out = vec![];
+    for l in name.iter().filter(|l| !l.is_root()) {
+        let text = l.to_string();
+        let owned = OwnedLabel::from_label(l);
+        let mut buf = l.as_slice().to_vec();
+        let mut wire = vec![l.len() as u8];
+        wire.extend_from_slice(l.as_slice());
+        wire.push(0xAA);
+        let mut wire2 = wire.clone();
+        let mut ol = owned;
+        let lab = |o: &[u8]| json!(["lab", json_bytes(o)]);
+        let v = one(vec![
+            ("Display text", label_routes(&text)),
+            ("OwnedLabel Display text", label_routes(&owned.to_string())),
+            ("serde_json", tag_label(serde_json::to_value(&owned).map_err(|_| ()).and_then(|v| serde_json::from_value::<OwnedLabel>(v).map_err(|_| ())))),
+            ("compact serde", tag_label(compact::to_octets(&owned).ok_or(()).and_then(|o| compact::from_octets::<OwnedLabel>(&o).map_err(|_| ())))),
+            ("from_slice", Label::from_slice(l.as_slice()).map(|x| lab(x.as_slice())).unwrap_or(json!(["err"]))),
+            ("from_slice_mut", Label::from_slice_mut(&mut buf).map(|x| lab(x.as_slice_mut())).unwrap_or(json!(["err"]))),
+            ("split_from", Label::split_from(&wire).ok().filter(|(_, t)| *t == [0xAA]).map(|(x, _)| lab(x.as_slice())).unwrap_or(json!(["err"]))),
+            ("split_from_mut", Label::split_from_mut(&mut wire2).ok().filter(|(_, t)| *t == [0xAA]).map(|(x, _)| lab(AsMut::<[u8]>::as_mut(x))).unwrap_or(json!(["err"]))),
+            ("to_owned", lab(ToOwned::to_owned(l).as_slice())),
+            ("OwnedLabel::from", lab(OwnedLabel::from(l).as_slice())),
+            ("as_label_mut", lab(ol.as_label_mut().as_slice())),
+            ("OwnedLabel views", {
+                let mut o2 = owned;
+                let a = AsRef::<[u8]>::as_ref(&owned).to_vec();
+                let b = AsRef::<Label>::as_ref(&owned).as_slice().to_vec();
+                let c = AsMut::<[u8]>::as_mut(&mut o2).to_vec();
+                let d = AsMut::<Label>::as_mut(&mut o2).as_slice().to_vec();
+                let e = std::borrow::BorrowMut::<Label>::borrow_mut(&mut o2).as_slice().to_vec();
+                let f = std::ops::DerefMut::deref_mut(&mut o2).as_slice().to_vec();
+                if [&b, &c, &d, &e, &f].iter().all(|x| **x == a) { lab(&a) } else { json!(["owned_label_views_differ"]) }
+            }),
+        ]);
+        out.push(if v[0] == "lab" { v[1].clone() } else { v });
+    }
+    Value::Array(out)
+}
+
 fn text_case(input: &Value) -> Value {
     let t = string_of(&input["text"]);
     let mut scanner = IterScanner::<_, Vec<u8>>::new([t.as_str()]);
+    let mut scanner2 = IterScanner::<_, Vec<u8>>::new([t.as_str()]);
+    let mut scanner3 = IterScanner::<_, Bytes>::new(vec![t.clone()]);
     json!({
-        "name": tag_name(N::from_str(&t)),
-        "iscan": tag_name(N::scan(&mut scanner)),
-        "unc": tag_unc(U::from_str(&t)),
-        "rel": tag_rel(Rn::from_str(&t)),
+        "name": name_routes(&t),
+        "iscan": one(vec![
+            ("Name::scan", tag_name(N::scan(&mut scanner))),
+            ("UncertainName::scan", tag_unc(U::scan(&mut scanner2))),
+            ("Name<Bytes>::scan", tag_name(Name::<Bytes>::scan(&mut scanner3))),
+        ]),
+        "unc": unc_routes(&t),
+        "rel": one(vec![
+            ("text", rel_routes(&t)),
+            // (deserializing a relative name is lenient about a final dot)
+            ("serde_json", if t.ends_with('.') { rel_routes(&t) } else { tag_rel(serde_json::from_value::<Rn>(Value::String(t.clone()))) }),
+        ]),
+        "lab": if input["labfree"].as_bool().unwrap_or(false) { json!(["free"]) } else { label_routes(&t) },
+        "zf": if input["zfsafe"].as_bool().unwrap_or(false) {
+            one(vec![
+                ("ns", zone_read(&zone_text(&t, "ns"), "ns")),
+                ("mx", zone_read(&zone_text(&t, "mx"), "mx")),
+            ])
+        } else {
+            json!(["skip"])
+        },
     })
 }
 
 fn wire_case(input: &Value) -> Value {
     let o = bytes_of(&input["octets"]);
-    let a = tag_name(N::from_octets(o.clone()));
+    let a = one(vec![
+        ("from_octets", tag_name(N::from_octets(o.clone()))),
+        ("from_octets<Bytes>", tag_name(Name::from_octets(Bytes::from(o.clone())))),
+        ("from_octets<&[u8]>", tag_name(Name::from_octets(o.as_slice()))),
+        ("compact serde", tag_name(compact::from_octets::<N>(&o))),
+        ("compact serde<Bytes>", tag_name(compact::from_octets::<Name<Bytes>>(&o))),
+    ]);
     let a2 = tag_name(Name::from_slice(&o).map(|n| -> N { n.to_name() }));
-    let r = tag_rel(Rn::from_octets(o.clone()));
+    let r = one(vec![
+        ("from_octets", tag_rel(Rn::from_octets(o.clone()))),
+        ("from_octets<Bytes>", tag_rel(RelativeName::from_octets(Bytes::from(o.clone())))),
+        ("compact serde", tag_rel(compact::from_octets::<Rn>(&o))),
+        ("compact serde<Bytes>", tag_rel(compact::from_octets::<RelativeName<Bytes>>(&o))),
+        ("from_builder", tag_rel(NameBuilder::from_builder(o.clone()).map(|b| b.finish()))),
+    ]);
     let r2 = tag_rel(RelativeName::from_slice(&o).map(|n| -> Rn { n.to_relative_name() }));
+    let lab = |r: Option<(Vec<u8>, Vec<u8>)>| match r {
+        Some((l, t)) if l.len() <= 63 => json!(["lab", json_bytes(&l), json_bytes(&t)]),
+        Some((l, _)) => json!(["invalid_label", json_bytes(&l)]),
+        None => json!(["err"]),
+    };
+    let mut o2 = o.clone();
+    let label = one(vec![
+        ("split_from", lab(Label::split_from(&o).ok().map(|(l, t)| (l.as_slice().to_vec(), t.to_vec())))),
+        ("split_from_mut", lab(Label::split_from_mut(&mut o2).ok().map(|(l, t)| (l.as_slice().to_vec(), t.to_vec())))),
+    ]);
     let mut parser = Parser::from_ref(o.as_slice());
     let p = match Name::parse(&mut parser) {
         Ok(n) if parser.pos() == n.len() => tag_name(Ok::<N, ()>(n.to_name())),
@@ -279,7 +855,14 @@ fn wire_case(input: &Value) -> Value {
         "abs": if a == a2 { a } else { json!(["octets_and_slice_disagree"]) },
         "parse": p,
         "rel": if r == r2 { r } else { json!(["octets_and_slice_disagree"]) },
-        "unc": if o.is_empty() { json!(["skip"]) } else { tag_unc(U::from_octets(o.clone())) },
+        "unc": if o.is_empty() { json!(["skip"]) } else {
+            one(vec![
+                ("from_octets", tag_unc(U::from_octets(o.clone()))),
+                ("from_octets<Bytes>", tag_unc(UncertainName::from_octets(Bytes::from(o.clone())))),
+                ("compact serde", tag_unc(compact::from_octets::<U>(&o))),
+            ])
+        },
+        "label": label,
     })
 }
 
@@ -349,6 +932,47 @@ fn shape_wire(input: &Value) -> Value {
         "ua": r3_unc(U::from_octets(aw.clone())),
         "ur": r3_unc(U::from_octets(rw.clone())),
         "fb": r3_rel(NameBuilder::from_builder(rw.clone()).ok().as_ref().map(|b| b.as_slice())),
+        "ria": match Rn::from_octets(rw.clone()) {
+            Ok(r) => one(vec![
+                ("into_absolute", r3_abs(r.clone().into_absolute().ok().as_ref().map(|n| n.as_slice()))),
+                ("into_absolute<Bytes>", r3_abs(RelativeName::from_octets(Bytes::from(rw.clone())).ok().and_then(|r| r.into_absolute().ok()).as_ref().map(|n| n.as_slice()))),
+                ("into_builder.into_name", r3_abs(r.clone().into_builder().into_name().ok().as_ref().map(|n| n.as_slice()))),
+            ]),
+            Err(_) => json!(["err", 0, 1]),
+        },
+        "cr": match Rn::from_octets(rw.clone()) {
+            Ok(r) => {
+                let ch = r.clone().chain_root();
+                let flat: N = ch.to_name();
+                let flat2: N = ToRelativeName::chain_root(r.clone()).to_name();
+                if usize::from(ch.compose_len()) != flat.len() || flat2.as_slice() != flat.as_slice() {
+                    json!(["compose_len_differs", 0, 0])
+                } else {
+                    r3_abs(Some(flat.as_slice()))
+                }
+            }
+            Err(_) => json!(["err", 0, 1]),
+        },
+        "uia": match U::from_octets(rw.clone()) {
+            Ok(u) if u.is_relative() => r3_abs(u.into_absolute().ok().as_ref().map(|n| n.as_slice())),
+            Ok(_) => json!(["absolute", 0, 0]),
+            Err(_) => json!(["err", 0, 1]),
+        },
+        "lb": lens.iter().map(|l| {
+            let plain = "a".repeat(*l);
+            let esc = "\\097".repeat(*l);
+            let mut buf = vec![b'a'; *l];
+            let len = |r: Option<usize>| r.map(|x| json!(x)).unwrap_or(json!(-1));
+            one(vec![
+                ("from_slice", len(Label::from_slice(&vec![b'a'; *l]).ok().map(|x| x.len()))),
+                ("from_slice_mut", len(Label::from_slice_mut(&mut buf).ok().map(|x| x.len()))),
+                ("OwnedLabel::from_str", len(OwnedLabel::from_str(&plain).ok().map(|x| x.len()))),
+                ("OwnedLabel::from_str escaped", len(OwnedLabel::from_str(&esc).ok().map(|x| x.len()))),
+                ("OwnedLabel::from_chars", len(OwnedLabel::from_chars(plain.chars()).ok().map(|x| x.len()))),
+                ("OwnedLabel serde_json", len(serde_json::from_value::<OwnedLabel>(Value::String(plain.clone())).ok().map(|x| x.len()))),
+                ("OwnedLabel compact serde", len(compact::from_octets::<OwnedLabel>(&vec![b'a'; *l]).ok().map(|x| x.len()))),
+            ])
+        }).collect::<Vec<_>>(),
     })
 }
 
@@ -358,10 +982,44 @@ fn shape_chain(input: &Value) -> Value {
     let jmax = input["jmax"].as_u64().unwrap_or(0) as usize;
     let mut ra = vec![];
     let mut rr = vec![];
+    let (mut ua, mut uaa, mut r3a, mut r3r) = (vec![], vec![], vec![], vec![]);
+    let abs_of_chain = |r: Result<N, ()>, len: Option<usize>| match r {
+        Ok(flat) if len.map(|l| l != flat.len()).unwrap_or(false) => json!(["compose_len_differs", 0, 0]),
+        Ok(flat) => r3_abs(Some(flat.as_slice())),
+        Err(_) => json!(["err", 0, 1]),
+    };
     for j in jmin..=jmax {
         let left: Rn = RelativeName::from_octets(wire_of(&lens[..j])).expect("left half");
         let right: Rn = RelativeName::from_octets(wire_of(&lens[j..])).expect("right half");
         let right_abs: N = right.clone().into_absolute().expect("right half, absolute");
+        // the left half as an uncertain name: relative, and made absolute
+        ua.push(match U::from(left.clone()).chain(right_abs.clone()) {
+            Ok(ch) => abs_of_chain(Ok(ch.to_name()), Some(usize::from(ch.compose_len()))),
+            Err(_) => json!(["err", 0, 1]),
+        });
+        let left_abs: N = left.clone().into_absolute().expect("left half, absolute");
+        uaa.push(match U::from(left_abs).chain(right_abs.clone()) {
+            Ok(ch) => abs_of_chain(Ok(ch.to_name()), Some(usize::from(ch.compose_len()))),
+            Err(_) => json!(["err", 0, 1]),
+        });
+        // the left half itself a chain of its first label and the rest
+        let cut = left.first().map(|l| l.len() + 1).unwrap_or(0);
+        let (l1, l2) = left.split(cut);
+        r3a.push(match l1.clone().chain(l2.clone()).and_then(|c| c.chain(right_abs.clone())) {
+            Ok(ch) => abs_of_chain(Ok(ch.to_name()), Some(usize::from(ch.compose_len()))),
+            Err(_) => json!(["err", 0, 1]),
+        });
+        r3r.push(match l1.chain(l2).and_then(|c| c.chain(right.clone())) {
+            Ok(ch) => {
+                let flat: Rn = ch.to_relative_name();
+                if usize::from(ch.compose_len()) != flat.len() {
+                    json!(["compose_len_differs", 0, 0])
+                } else {
+                    r3_rel(Some(flat.as_slice()))
+                }
+            }
+            Err(_) => json!(["err", 0, 1]),
+        });
         ra.push(match left.clone().chain(right_abs) {
             Ok(ch) => {
                 let flat: N = ch.to_name();
@@ -385,53 +1043,162 @@ fn shape_chain(input: &Value) -> Value {
             Err(_) => json!(["err", 0, 1]),
         });
     }
-    json!({"ra": ra, "rr": rr})
+    json!({"ra": ra, "rr": rr, "ua": ua, "uaa": uaa, "r3a": r3a, "r3r": r3r})
 }
 
 fn zone_case(input: &Value) -> Value {
     let owner = string_of(&input["owner"]);
-    let text = format!("$ORIGIN example.\n{} 3600 IN A 192.0.2.1\n", owner);
-    let mut zf = Zonefile::from(text.as_str());
-    loop {
-        match zf.next_entry() {
-            Ok(Some(Entry::Record(rec))) => {
-                let n: N = rec.owner().to_name();
-                return json!(["abs", json_bytes(n.as_slice()), valid_abs(n.as_slice()) as u8]);
-            }
-            Ok(Some(_)) => continue,
-            Ok(None) | Err(_) => return json!(["err", [], 1]),
-        }
-    }
+    zone_read(&zone_text(&owner, "owner"), "owner")
 }
 
 /// a name around the limits, written plainly or with escapes, read by the
 /// zone-file scanner as owner or inside NS / MX record data
 fn zscan_case(input: &Value) -> Value {
     let name = string_of(&input["text"]);
-    let text = match input["place"].as_str().unwrap_or("") {
-        "owner" => format!("$ORIGIN example.\n{} 3600 IN A 192.0.2.1\n", name),
-        "ns" => format!("$ORIGIN example.\nx 3600 IN NS {}\n", name),
-        _ => format!("$ORIGIN example.\nx 3600 IN MX 10 {}\n", name),
+    let place = input["place"].as_str().unwrap_or("");
+    zone_read(&zone_text(&name, place), place)
+}
+
+// --- symbols, ready-made names, names made from numbers ---------------------
+
+fn sym_case(input: &Value) -> Value {
+    let v = input["v"].as_u64().unwrap_or(0) as u32;
+    let sym = match input["kind"].as_str().unwrap_or("") {
+        "char" => match char::from_u32(v) {
+            Some(c) => Symbol::Char(c),
+            None => return json!({"bad_case": true}),
+        },
+        "simple" => Symbol::SimpleEscape(v as u8),
+        _ => Symbol::DecimalEscape(v as u8),
     };
-    let mut zf = Zonefile::from(text.as_str());
-    loop {
-        match zf.next_entry() {
-            Ok(Some(Entry::Record(rec))) => {
-                let n: N = match input["place"].as_str().unwrap_or("") {
-                    "owner" => rec.owner().to_name(),
-                    "ns" => match rec.data() {
-                        ZoneRecordData::Ns(ns) => ns.nsdname().to_name(),
-                        _ => return json!(["wrong_record_type", [], 0]),
-                    },
-                    _ => match rec.data() {
-                        ZoneRecordData::Mx(mx) => mx.exchange().to_name(),
-                        _ => return json!(["wrong_record_type", [], 0]),
-                    },
-                };
-                return json!(["abs", json_bytes(n.as_slice()), valid_abs(n.as_slice()) as u8]);
+    let push = |pre: &str| -> Value {
+        let on = |mut b: NameBuilder<Vec<u8>>, how: u8| -> Value {
+            if b.append_chars(pre.chars()).is_err() {
+                return json!(["prefix_refused"]);
             }
-            Ok(Some(_)) => continue,
-            Ok(None) | Err(_) => return json!(["err", [], 1]),
+            let before = b.as_slice().to_vec();
+            let r = match how {
+                0 => b.push_symbol(sym).is_ok(),
+                _ => b.append_symbols([sym]).is_ok(),
+            };
+            if !r {
+                // an error leaves the builder as it was
+                return if b.as_slice() == before { json!(["err"]) } else { json!(["err_but_changed"]) };
+            }
+            let open = b.in_label();
+            let rel = b.finish();
+            if !valid_rel(rel.as_slice()) {
+                return json!(["invalid_rel", json_bytes(rel.as_slice())]);
+            }
+            json!(["rel", json_bytes(rel.as_slice()), open as u8])
+        };
+        one(vec![
+            ("push_symbol", on(NameBuilder::new_vec(), 0)),
+            ("append_symbols", on(NameBuilder::new_vec(), 1)),
+        ])
+    };
+    json!({
+        "octet": match sym.into_octet() {
+            Ok(o) => json!(o),
+            Err(_) => json!(-1),
+        },
+        "fresh": push(""),
+        "open": push("a"),
+    })
+}
+
+fn const_case(_input: &Value) -> Value {
+    let bad = |v: Vec<Value>| -> bool { v.iter().any(|x| *x != v[0]) };
+    let roots = vec![
+        tag_name(Ok::<_, ()>(Name::root_ref())),
+        tag_name(Ok::<_, ()>(Name::root_vec())),
+        tag_name(Ok::<_, ()>(Name::root_bytes())),
+        tag_name(Ok::<_, ()>(Name::<Vec<u8>>::root())),
+        tag_name(Ok::<N, ()>(Name::root_slice().to_name())),
+        tag_unc(Ok::<_, ()>(UncertainName::root_ref())),
+        tag_unc(Ok::<_, ()>(UncertainName::root_vec())),
+        tag_unc(Ok::<_, ()>(UncertainName::root_bytes())),
+        tag_unc(Ok::<_, ()>(UncertainName::<Vec<u8>>::root())),
+    ];
+    let empties = vec![
+        tag_rel(Ok::<_, ()>(RelativeName::empty_ref())),
+        tag_rel(Ok::<_, ()>(RelativeName::empty_vec())),
+        tag_rel(Ok::<_, ()>(RelativeName::empty_bytes())),
+        tag_rel(Ok::<_, ()>(RelativeName::<Vec<u8>>::empty())),
+        tag_rel(Ok::<Rn, ()>(RelativeName::empty_slice().to_relative_name())),
+        tag_unc(Ok::<_, ()>(UncertainName::empty_ref())),
+        tag_unc(Ok::<_, ()>(UncertainName::empty_vec())),
+        tag_unc(Ok::<_, ()>(UncertainName::empty_bytes())),
+        tag_unc(Ok::<_, ()>(UncertainName::<Vec<u8>>::empty())),
+        tag_rel(Ok::<_, ()>(NameBuilder::new_vec().finish())),
+        tag_rel(Ok::<_, ()>(NameBuilder::new_bytes().finish())),
+    ];
+    let wilds = vec![
+        tag_rel(Ok::<_, ()>(RelativeName::wildcard_ref())),
+        tag_rel(Ok::<_, ()>(RelativeName::wildcard_vec())),
+        tag_rel(Ok::<_, ()>(RelativeName::wildcard_bytes())),
+        tag_rel(Ok::<_, ()>(RelativeName::<Vec<u8>>::wildcard())),
+        tag_rel(Ok::<Rn, ()>(RelativeName::wildcard_slice().to_relative_name())),
+    ];
+    let pick = |v: Vec<Value>| if bad(v.clone()) { json!(["constructors_disagree", v]) } else { v[0].clone() };
+    json!({
+        "root": pick(roots),
+        "empty": pick(empties),
+        "wild": pick(wilds),
+        "rootlabel": json_bytes(Label::root().as_slice()),
+        "wildlabel": json_bytes(Label::wildcard().as_slice()),
+    })
+}
+
+fn lower(o: &[u8]) -> Vec<u8> {
+    o.iter().map(|b| b.to_ascii_lowercase()).collect()
+}
+
+fn rev_case(input: &Value) -> Value {
+    let a = bytes_of(&input["a"]);
+    let abs = |addr: IpAddr| -> Value {
+        let v = |r: Result<N, ()>| match r {
+            Ok(n) if valid_abs(n.as_slice()) && N::from_str(&n.to_string()).map(|m| m == n).unwrap_or(false) => {
+                json!(["abs", json_bytes(&lower(n.as_slice()))])
+            }
+            Ok(n) => json!(["invalid_or_text_differs", json_bytes(n.as_slice())]),
+            Err(_) => json!(["err"]),
+        };
+        one(vec![
+            ("reverse_from_addr", v(N::reverse_from_addr(addr).map_err(|_| ()))),
+            ("reverse_from_addr<Bytes>", v(Name::<Bytes>::reverse_from_addr(addr).map(|n| n.to_name()).map_err(|_| ()))),
+        ])
+    };
+    match input["kind"].as_str().unwrap_or("") {
+        "v4" => abs(IpAddr::V4(Ipv4Addr::new(a[0], a[1], a[2], a[3]))),
+        "v6" => {
+            let mut x = [0u8; 16];
+            x.copy_from_slice(&a[..16]);
+            abs(IpAddr::V6(Ipv6Addr::from(x)))
+        }
+        kind => {
+            let on = |bytes: bool| -> Value {
+                macro_rules! go {
+                    ($b:expr) => {{
+                        let mut b = $b;
+                        let r = if kind == "dec" { b.append_dec_u8_label(a[0]) } else { b.append_hex_digit_label(a[0]) };
+                        match r {
+                            Ok(()) if !b.in_label() => {
+                                let rel = b.finish();
+                                if valid_rel(rel.as_slice()) {
+                                    json!(["rel", json_bytes(&lower(rel.as_slice()))])
+                                } else {
+                                    json!(["invalid_rel", json_bytes(rel.as_slice())])
+                                }
+                            }
+                            Ok(()) => json!(["label_left_open"]),
+                            Err(_) => json!(["err"]),
+                        }
+                    }};
+                }
+                if bytes { go!(NameBuilder::new_bytes()) } else { go!(NameBuilder::new_vec()) }
+            };
+            one(vec![("vec", on(false)), ("bytes", on(true))])
         }
     }
 }
@@ -839,6 +1606,9 @@ fn repr(k: &str, input: &Value) -> Value {
         "parsed" => parsed_case(input),
         "ranges" => ranges_case(input),
         "affix" => affix_case(input),
+        "sym" => sym_case(input),
+        "const" => const_case(input),
+        "rev" => rev_case(input),
         _ => json!({"bad_case": true}),
     }
 }
